@@ -643,7 +643,7 @@ theorem handlerOf_ts2 {name : String} {hd : Handler} (hn : handlerOf name = some
          | exact handleDiffHeaderDiff_ts2 ps inv.mode e | exact (handleFileOperation_ts ps e).to2
          | exact (handleMinusLine_ts ps inv e).to2 | exact (handlePlusLine_ts ps e).to2
          | exact (handleHunkHeader_ts e).to2 | exact (handleModeLine_ts ps e).to2
-         | exact handleMisc_ts2 ps e | exact (handleSubmoduleLog_ts ps e).to2
+         | exact handleMisc_ts2 ps e | exact (handleSubmoduleLog_ts ps inv.mode e).to2
          | exact (handleSubmoduleShort_ts ps e).to2 | exact (handleMergeConflict_ts ps e).to2
          | exact (handleHunkLine_ts2 ps g hb hc e).1 | exact (handleGitShowFile_ts e).to2
          | exact (handleBlame_ts g e).to2 | exact (handleGrep_ts g hg e).to2
